@@ -26,6 +26,7 @@
 //! component `guards.wire_obs`: the same history, result = per request (L status (L (L name value) ...) body)
 use crate::c00pipe as pipe;
 use crate::xval::X;
+use bytes::Bytes;
 use kvarn::prelude::*;
 use std::sync::Arc;
 use std::time::Duration;
@@ -34,8 +35,22 @@ use tokio::io::{AsyncReadExt, AsyncWriteExt};
 const WAIT: Duration = Duration::from_secs(20);
 
 fn customize() -> Box<pipe::Customize> {
-    Box::new(|_kv, host, _shared| {
+    Box::new(|kv, host, _shared| {
         kvarn_extensions::mount_all(&mut host.extensions);
+        // cfg `fcache_seed` = (L (L (B path relative to the host directory) (L) | (L (B content))) ...): entries the file cache
+        // holds before the first request (stale content, or "no such file"), under the key the server itself uses for the path
+        if let (Some(seed), Some(cache)) = (kv.iter().find(|(n, _)| n == "fcache_seed").and_then(|(_, v)| v.as_l()), host.file_cache.as_ref()) {
+            for e in seed {
+                if let Some([X::B(rel), X::L(v)]) = e.as_l() {
+                    let key = format!("{}/{}", host.path, String::from_utf8_lossy(rel));
+                    let value = match &v[..] {
+                        [X::B(content)] => Some((kvarn::prelude::chrono::OffsetDateTime::now_utc(), Bytes::copy_from_slice(content))),
+                        _ => None,
+                    };
+                    cache.cache.insert(key.into(), value);
+                }
+            }
+        }
     })
 }
 
